@@ -222,6 +222,12 @@ def x_hist(ctx, case):
                 stop_tags.append(("t%s" % op[1], frozenset(model())))
                 top.addSkip(test_obj(op[1]), "why")
                 top.stopTest(test_obj(op[1]))
+            elif kind == "skip_bare":
+                # what unittest's suite emits when setUpClass raises SkipTest: addSkip() for a holder object, with
+                # neither startTest() nor stopTest() - no scope is opened, none is closed
+                side_outcomes.append(("t%s" % op[1], frozenset(side_run)))
+                outcome_tags.append(("t%s" % op[1], frozenset(model())))
+                top.addSkip(test_obj(op[1]), "class skipped")
             elif kind == "placeholder":
                 ptags = set(op[2])
                 inside = model() | ptags
@@ -555,9 +561,12 @@ def random_history(rng):
                 n += 1
                 h.append(["startTest", n])
                 state = 1
-            elif r < 0.75:
+            elif r < 0.7:
                 n += 1
                 h.append(["skip_nostart", n])
+            elif r < 0.75:
+                n += 1
+                h.append(["skip_bare", n])
             elif r < 0.85:
                 h.append(["startTestRun"])
             else:
@@ -591,6 +600,18 @@ def run(ctx):
                     ctx.execute("tfr_fault", {"raise_in": raise_in, "w1_run_tags": run_tags, "local": local})
     ctx.note_space("two ThreadsafeForwardingResults over one TestResult whose outcome method raises once: 6 methods x "
                    "run-level tags on/off x 2 local tag sets", n)
+    n = 0
+    for subj in SUBJECTS:
+        for hist in ([["startTestRun"], ["skip_bare", 1], ["tags", ["a"], []], ["skip_nostart", 2], ["startTest", 3],
+                      ["outcome", 3, "addSuccess"], ["stopTest", 3], ["stopTestRun"]],
+                     [["startTestRun"], ["tags", ["a"], []], ["skip_bare", 1], ["tags", ["b"], ["a"]], ["startTest", 2],
+                      ["tags", ["c"], []], ["outcome", 2, "addError"], ["stopTest", 2], ["skip_bare", 3], ["skip_nostart", 4],
+                      ["stopTestRun"]]):
+            if ctx.mine():
+                n += 1
+                ctx.execute("hist", {"subject": subj, "history": hist})
+    ctx.note_space("class-level skips (addSkip with neither startTest nor stopTest) among run-level tag changes and "
+                   "other tests: 2 histories x %d subjects" % len(SUBJECTS), n)
     n = 0
     for other in ("ext", "real"):
         for bad_last in (False, True):
